@@ -17,6 +17,7 @@ import (
 	"fmt"
 	"math/big"
 	"strings"
+	"time"
 
 	amd_manifest "github.com/linuxboot/fiano/pkg/amd/manifest"
 	"github.com/linuxboot/fiano/pkg/amd/psb"
@@ -506,6 +507,7 @@ func opRootKey(args []string) string {
 }
 
 func main() {
+	CaseTimeout = 30 * time.Second // an exhaustive flip sweep with a 2048-bit key takes a few seconds
 	Register("set_pub_key", opSetPubKey)
 	Register("bg_set_pub_key", opBgSetPubKey)
 	Register("pub_key", opPubKey)
